@@ -373,7 +373,7 @@ pub fn gen(rng: &mut Rng, tier: &str, dist: &mut Dist) -> Vec<String> {
         }
     }
     // ---- random damage of small files over the option space ----
-    let n = if thorough { 80000 } else { 8000 };
+    let n = if thorough { 30000 } else { 8000 };
     for i in 0..n {
         let sizes = gen_sizes(rng);
         if i % 3 != 2 {
